@@ -273,19 +273,30 @@ func (this *DatasetManager) processSnapshot(data []byte) error {
 		return err
 	}
 
+	// The snapshot replaces the catalogue. Datasets it does not list were deleted before it was taken.
+	previous := this.datasets
+	this.datasets = make(map[uuid.UUID]*Dataset)
 	for _, dataset := range dmSnapshot.Datasets {
 		id, err := uuid.FromBytes(dataset.GetId())
 		if err != nil {
 			return err
 		}
-		if _, exists := this.datasets[id]; !exists {
-			this.datasets[id], err = newDataset(id, *dataset, this.raftWalDB, this.raftTransport, this.clusterConn, this)
-			if err != nil {
-				return err
-			}
-			for _, partition := range this.datasets[id].partitions {
-				this.allocator.watch(partition)
-			}
+		if existing, exists := previous[id]; exists {
+			this.datasets[id] = existing
+			delete(previous, id)
+			continue
+		}
+		this.datasets[id], err = newDataset(id, *dataset, this.raftWalDB, this.raftTransport, this.clusterConn, this)
+		if err != nil {
+			return err
+		}
+		for _, partition := range this.datasets[id].partitions {
+			this.allocator.watch(partition)
+		}
+	}
+	for _, dataset := range previous {
+		for _, partition := range dataset.partitions {
+			this.allocator.unwatch(partition.id)
 		}
 	}
 	return nil
